@@ -56,6 +56,23 @@ HeaderPolicyTotal ==
      /\ h.out.k = "route" => h.class = "ok" /\ h.v <= MaxSupported /\ h.out.v = h.v
      /\ (h.class = "ok" /\ h.v <= MaxSupported) => h.out.k = "route"
 
+\* The build rule of an unversioned server (server.rs) is exactly the condition
+\* under which routing *without* a version is faithful to every range it may
+\* meet: accepted iff, for both ranges, membership does not depend on the version.
+UnversionedBuildRule ==
+  LET rs == {pair[1], pair[2]} IN
+  BuildAccepted("unversioned", rs) <=>
+     \A r \in rs : \A v \in Probes : RoutedInRange(r, 0) = InRange(r, v)
+\* a Dynamic policy never builds differently from the header policy, and the
+\* default-supplying policy differs from it only for an absent header
+PolicyRefinesHeader ==
+  \A c \in HeaderClasses, v \in Probes, d \in Probes :
+     /\ BuildAccepted("default", {pair[1], pair[2]}) /\ BuildAccepted("header", {pair[1], pair[2]})
+     /\ PolicyOutcome("header", c, v, MaxSupported, d) = HeaderOutcome(c, v, MaxSupported)
+     /\ c # "missing" => PolicyOutcome("default", c, v, MaxSupported, d) = HeaderOutcome(c, v, MaxSupported)
+     /\ PolicyOutcome("default", "missing", v, MaxSupported, d) = [k |-> "route", v |-> d]
+     /\ PolicyOutcome("unversioned", c, v, MaxSupported, d) = [k |-> "route", v |-> 0]
+
 EmitVec ==
   PrintT(<<"VEC", ToJson([ r1 |-> pair[1], r2 |-> pair[2],
                            member1 |-> [v \in Probes |-> InRange(pair[1], v)],
